@@ -211,6 +211,9 @@ func c18XReader(r *vhlib.Run, data, plain []byte, seq []rdOp) {
 
 func runC18(r *vhlib.Run) {
 	rng := r.Rng
+	// lifecycle histories of flate.Reader (Read / Close / Reset in any order over scripted sources)
+	// against the implementation-level model, per call (Flate/ImplLife.v)
+	wfllife(r)
 	depth := 4
 	if !r.Quick() {
 		depth = 5
@@ -264,6 +267,55 @@ func runC18(r *vhlib.Run) {
 			c18Writer(r, wc, seq)
 		}
 	}
+	// Close is idempotent also when it FAILS: over a sink that fails at some point (for good or
+	// once), a Close that has reported an error is not followed by a Close that reports success
+	// (the stream the sink holds is incomplete), and a Close that succeeded keeps succeeding
+	for _, wc := range wcodecs() {
+		nsch := 4
+		if !r.Quick() {
+			nsch = 30
+		}
+		for si := 0; si < nsch; si++ {
+			ops := c13Schedule(rng, wc, si%3 == 2)
+			free := &faultSink{At: -1}
+			runWriter(wc, free, ops)
+			total := free.Buf.Len()
+			var ats []int
+			for k := 0; k <= total && k < 64; k++ {
+				ats = append(ats, total-k) // the footer / end-of-stream region, byte by byte
+			}
+			for k := 0; k < 24; k++ {
+				ats = append(ats, rng.Intn(total+1))
+			}
+			for _, at := range ats {
+				for v := 0; v < 4; v++ {
+					sink := &faultSink{At: at, Kind: v & 1, Once: v&2 != 0}
+					full := append(append([]wOp{}, ops...), wOp{Kind: 'c'}, wOp{Kind: 'w', Data: []byte("x")}, wOp{Kind: 'c'}, wOp{Kind: 'c'})
+					t := runWriter(wc, sink, full)
+					rp := map[string]interface{}{"type": wc.Name + ".Writer", "ops": wOpsStrings(full), "sink_fails_at": at, "short_write": v&1 == 1, "once": v&2 != 0, "returns": t.Rets}
+					r.Eval("writer-failing-sink:"+wc.Name, true, []byte(fmt.Sprint(wc.Name, wOpsStrings(ops), at, v)))
+					if t.Panic != "" {
+						r.Violate("panic", wc.Name+".Writer: "+t.Panic, rp)
+						continue
+					}
+					first := -1
+					for i, o := range full {
+						if o.Kind != 'c' || i >= len(t.Errs) {
+							continue
+						}
+						if first < 0 {
+							first = i
+							continue
+						}
+						if (t.Errs[first] == nil) != (t.Errs[i] == nil) {
+							r.Violate("close-not-idempotent", fmt.Sprintf("%s: Close (call %d) returned %v, a later Close (call %d) returned %v", wc.Name, first, t.Errs[first], i, t.Errs[i]), rp)
+							break
+						}
+					}
+				}
+			}
+		}
+	}
 	ralpha := []rdOp{{Kind: 'r', N: 0}, {Kind: 'r', N: 1}, {Kind: 'r', N: 7}, {Kind: 'r', N: 100000}, {Kind: 'c'}, {Kind: 'R'}}
 	for _, c := range codecs() {
 		s := c.Valid(rng, 600)
@@ -293,9 +345,9 @@ func runC18(r *vhlib.Run) {
 			}
 			c18Reader(r, c, s.Data, s.Plain, seq)
 		}
-		// Close issued when the decoder has already consumed the whole stream (internally it is
-		// at the end) while the caller has not drained the decoded output: if that Close reports
-		// success the Reader is closed, and no later Read may hand out data
+		// Close issued when the decoder has already taken the whole input while the caller has not
+		// drained the decoded output: if that Close reports success AND closed the Reader, no later
+		// Read may hand out data (see below for what is compared)
 		for _, st := range []struct{ Data, Plain []byte }{{s.Data, s.Plain}, func() struct{ Data, Plain []byte } {
 			v := c.Valid(rng, 6000)
 			return struct{ Data, Plain []byte }{v.Data, v.Plain}
@@ -327,13 +379,25 @@ func runC18(r *vhlib.Run) {
 					if z.Close() != nil {
 						return
 					}
-					for k := 0; k < 3; k++ {
+					// Close returned nil. Either the Reader was at the end of its stream and is now
+					// closed (every Read fails, nothing is delivered), or the stream had not ended for
+					// the decoder (all input taken, but its state machine not yet at the end marker) and
+					// Close closed nothing: the Reader goes on and finishes with io.EOF. What must not
+					// happen is both: data handed out and then the error of a CLOSED Reader.
+					after := 0
+					var last error
+					for k := 0; k < 4*len(st.Plain)/64+100; k++ {
 						n, err := z.Read(make([]byte, 64))
-						if n > 0 || err == nil {
-							r.Violate("read-after-close-returns-data", fmt.Sprintf("%s.Reader: all %d input bytes consumed, %d of %d output bytes delivered, Close returned nil, then Read returned (%d, %v)", c.Name, len(st.Data), got, len(st.Plain), n, err),
-								map[string]interface{}{"type": c.Name + ".Reader", "stream": vhlib.Hex(st.Data), "read_size": bs})
-							return
+						after += n
+						last = err
+						if err != nil {
+							break
 						}
+					}
+					if after > 0 && last != nil && last != io.EOF {
+						r.Violate("read-after-close-returns-data", fmt.Sprintf("%s.Reader: all %d input bytes consumed, %d of %d output bytes delivered, Close returned nil, later Reads returned %d bytes and then %v", c.Name, len(st.Data), got, len(st.Plain), after, last),
+							map[string]interface{}{"type": c.Name + ".Reader", "stream": vhlib.Hex(st.Data), "read_size": bs})
+						return
 					}
 				}()
 			}
